@@ -753,16 +753,20 @@ func (rt *socksRT) judgeAssociation(idx int, r *reqResult, u spec.User, arrivals
 			got[a.dest] = append(got[a.dest], a.payload)
 		}
 	}
-	want := map[string][][]byte{}
-	stopped := false // after a malformed frame the tunnel may legitimately end
+	// what each destination should have received, in order. After a malformed frame the
+	// association may legitimately end (or carry on): later datagrams may arrive or not, but
+	// what does arrive must still be intact, in order and not duplicated.
+	type wantDgram struct {
+		payload  []byte
+		optional bool
+	}
+	want := map[string][]wantDgram{}
+	rejected := map[string]bool{} // destinations this user may not reach: judged by C12 only
+	stopped := false
 	for i := range req.Dgrams {
 		d := &req.Dgrams[i]
 		if d.Malformed != "" {
-			if d.Malformed != "frag" && d.Malformed != "short-header" {
-				stopped = true
-			} else {
-				stopped = true // a datagram-level error also ends the server's association loop
-			}
+			stopped = true
 			continue
 		}
 		action, class := rt.expectedAction(u, d.AType, d.Host)
@@ -770,6 +774,9 @@ func (rt *socksRT) judgeAssociation(idx int, r *reqResult, u spec.User, arrivals
 		w.addCheck(1)
 		if ip == nil {
 			continue
+		}
+		if action == "REJECT" {
+			rejected[ip.String()] = true
 		}
 		if action == "REJECT" && (class == "loopback" || class == "private") {
 			// C12: must not be relayed
@@ -783,35 +790,77 @@ func (rt *socksRT) judgeAssociation(idx int, r *reqResult, u spec.User, arrivals
 			}
 			continue
 		}
-		if stopped || r.sent[i] == nil || d.Size > 65507 {
+		if r.sent[i] == nil || d.Size > 65507 {
 			continue // not sent, or larger than any UDP datagram: delivery is not demanded
 		}
-		if d.Size >= 8 {
-			want[ip.String()] = append(want[ip.String()], r.sent[i])
-		} else {
-			want[ip.String()+"/short"] = append(want[ip.String()+"/short"], r.sent[i])
+		key := ip.String()
+		if d.Size < 8 {
+			key += "/short"
 		}
+		want[key] = append(want[key], wantDgram{r.sent[i], stopped})
 	}
 	if rt.w.Spec.Property != "C18" && !w.wantsOracle("C18") {
 		return
+	}
+	for dest, gs := range got {
+		if _, ok := want[dest]; !ok && !rejected[dest] && !strings.HasSuffix(dest, "/short") && len(gs) > 0 {
+			want[dest] = nil // judged below: everything that arrived there is unexpected
+		}
 	}
 	for dest, ws := range want {
 		gs := got[dest]
 		w.addCheck(1)
 		if strings.HasSuffix(dest, "/short") {
 			// untagged: compare as multisets restricted to what this association sent
-			if len(gs) < len(ws) {
-				w.violate("C18", "datagram-lost-in-tunnel", "association %d: destination %s received %d short datagrams, %d were sent", idx, dest, len(gs), len(ws))
+			need := 0
+			for _, x := range ws {
+				if !x.optional {
+					need++
+				}
+			}
+			if len(gs) < need {
+				w.violate("C18", "datagram-lost-in-tunnel", "association %d: destination %s received %d short datagrams, %d were sent", idx, dest, len(gs), need)
 			}
 			continue
 		}
-		if len(gs) != len(ws) {
-			w.violate("C18", "datagram-count-differs", "association %d: destination %s received %d datagrams of this association, %d were sent (merged, split, dropped or duplicated by the tunnel)", idx, dest, len(gs), len(ws))
+		k := 0
+		bad := false
+		for gi, g := range gs {
+			for k < len(ws) && !bytes.Equal(ws[k].payload, g) && ws[k].optional {
+				k++
+			}
+			if k < len(ws) && bytes.Equal(ws[k].payload, g) {
+				k++
+				continue
+			}
+			// g is not the next expected datagram: work out what it is for the report
+			bad = true
+			idxOf := -1
+			for j := range ws {
+				if bytes.Equal(ws[j].payload, g) {
+					idxOf = j
+				}
+			}
+			switch {
+			case idxOf >= 0 && idxOf < k:
+				w.violate("C18", "datagram-count-differs", "association %d: destination %s received datagram #%d of this association again or out of order (arrival %d of %d; %d were sent)", idx, dest, idxOf, gi, len(gs), len(ws))
+			case idxOf >= k:
+				w.violate("C18", "datagram-count-differs", "association %d: destination %s: arrival %d is datagram #%d although #%d, sent earlier and well formed, has not arrived (dropped or reordered by the tunnel)", idx, dest, gi, idxOf, k)
+			default:
+				if len(g) >= 8 && int(binary.BigEndian.Uint32(g[4:])) < len(req.Dgrams) && req.Dgrams[int(binary.BigEndian.Uint32(g[4:]))].Malformed == "" {
+					w.violate("C18", "datagram-altered-or-reordered", "association %d: destination %s arrival %d: %d bytes (tag %x) matches nothing that was sent there", idx, dest, gi, len(g), clip(g, 8))
+				} else {
+					w.violate("C18", "garbage-datagram-delivered", "association %d: destination %s arrival %d: %d bytes (tag %x) comes from a malformed frame or from nothing that was sent", idx, dest, gi, len(g), clip(g, 8))
+				}
+			}
+			break
+		}
+		if bad {
 			continue
 		}
-		for k := range ws {
-			if !bytes.Equal(ws[k], gs[k]) {
-				w.violate("C18", "datagram-altered-or-reordered", "association %d: destination %s datagram %d: got %d bytes (tag %x), sent %d bytes (tag %x)", idx, dest, k, len(gs[k]), clip(gs[k], 8), len(ws[k]), clip(ws[k], 8))
+		for ; k < len(ws); k++ {
+			if !ws[k].optional {
+				w.violate("C18", "datagram-count-differs", "association %d: destination %s received %d datagrams of this association; well-formed datagram #%d of %d sent there never arrived (merged, split or dropped by the tunnel)", idx, dest, len(gs), k, len(ws))
 				break
 			}
 		}
